@@ -58,6 +58,7 @@ type Contract struct {
 	Props    []string
 	Requires []*Clause
 	Ensures  []*Clause
+	EnsuresAssumed []*Clause // postconditions callers may use but that are NOT checked in the function (reported as assumption)
 	PanicsIf []*Clause
 	Lets     []LetDef
 	Anys     [][2]string // name, type: arbitrary fixed values (universally quantified contract variables)
@@ -107,7 +108,7 @@ type ContractSet struct {
 	Assumes   []string // textual list of assumed contracts (for evidence)
 }
 
-var keywordRe = regexp.MustCompile(`^(package|opaque|any|functype|func|fieldfunc|assume|lemma|ghost|pred|spec|requires|ensures|modifies|panics_if|let|loop|invariant|free_invariant|decreases|exit_assert|props|encoder|nopanic|may_panic|return_assert|cover|bounded|assert|opt)\b`)
+var keywordRe = regexp.MustCompile(`^(package|opaque|any|functype|func|fieldfunc|assume|lemma|ghost|pred|spec|requires|ensures_assumed|ensures|modifies|panics_if|let|loop|invariant|free_invariant|decreases|exit_assert|props|encoder|nopanic|may_panic|return_assert|cover|bounded|assert|opt)\b`)
 
 // readContractFile extracts //@ lines and parses them.
 func (cs *ContractSet) readContractFile(path, pkgPath string) error {
@@ -249,6 +250,12 @@ func (cs *ContractSet) readContractFile(path, pkgPath string) error {
 					return err
 				}
 				cur.Ensures = append(cur.Ensures, c)
+			case "ensures_assumed":
+				c, err := mk(rest)
+				if err != nil {
+					return err
+				}
+				cur.EnsuresAssumed = append(cur.EnsuresAssumed, c)
 			case "assert", "return_assert":
 				c, err := mk(rest)
 				if err != nil {
